@@ -72,7 +72,29 @@ func (fr *Frame) guardedCheck(st *State, fa *ssa.FieldAddr, base Val, pos token.
 		lockRef := r.subObj(sk, l, base.S)
 		held := sSelect(r.get(st, "g|$held"), lockRef)
 		cond := sOr(held, freshObj)
-		// phase witnesses: frozen_after fields may be read lock-free once started
+		// publication: a field declared publish_once is written (under its lock) only from its zero
+		// value to its final value (the type's rely clause says so and is checked at every unlock);
+		// a function that is only ever entered after the field was published, i.e. whose entry
+		// state has it non-zero, may read it without the lock
+		if !write {
+			for _, f := range tc.Flags["publish_once"] {
+				if f != fname {
+					continue
+				}
+				top := fr
+				for top.parent != nil {
+					top = top.parent
+				}
+				if top.entry != nil {
+					if fk, _ := kindOf(sto.Field(fa.Field).Type()); isScalar(fk) {
+						key := r.fieldKey(sk, sto.Field(fa.Field))
+						ev := sSelect(r.get(top.entry, key), base.S)
+						cond = sOr(cond, sNot(sEq(ev, "0")))
+						r.assumes["publication: "+sk+"."+fname+" is read lock-free only by functions entered after it was set (their precondition); the write that publishes it happens before they can run"] = true
+					}
+				}
+			}
+		}
 		r.require(st, "guarded", fr.oblFunc(), fr.oblName(fmt.Sprintf("%s(%s.%s)@%s", kind, sk, fname, r.eng.pos(pos))), cond, tc.Tags, pos,
 			fmt.Sprintf("%s of %s.%s requires lock %s", kind, sk, fname, l))
 		return
